@@ -211,6 +211,33 @@ type Env struct {
 	LogErr []string // engine log lines at Error/Warn level
 	hooks  PropHooks
 	Ended  bool
+	// IngestT: fake times at which the watermark recorded an event arrival (observed through the
+	// scheduler's grant of the lock site "window/watermark.go:*:lock:UpdateEventTime"; the next
+	// thing that goroutine does is read the clock into lastEventTime); index = arrival number
+	// among rows with a usable timestamp
+	IngestT []time.Duration
+	// IngestEnd: the last instant at which the same arrival consulted the watermark (lateness test)
+	IngestEnd []time.Duration
+}
+
+// WatchIngest records event-time ingestion instants (no hook in /repo: the scheduler sees the
+// grant of the mutex acquisition at the top of Watermark.UpdateEventTime).
+func (e *Env) WatchIngest() {
+	e.Sim.OnGrant = func(step, label int, site string) {
+		if !strings.HasPrefix(site, "window/watermark.go") {
+			return
+		}
+		switch {
+		case strings.HasSuffix(site, ":lock:UpdateEventTime"):
+			e.IngestT = append(e.IngestT, e.Sim.Now())
+			e.IngestEnd = append(e.IngestEnd, e.Sim.Now())
+			e.Logf("ingest #%d", len(e.IngestT))
+		case strings.HasSuffix(site, ":lock:IsEventTimeLate"):
+			if n := len(e.IngestEnd); n > 0 {
+				e.IngestEnd[n-1] = e.Sim.Now() // the lateness decision of the row being ingested
+			}
+		}
+	}
 }
 
 // PropHooks lets a property intercept generic client operations.
@@ -221,12 +248,12 @@ type PropHooks struct {
 	CustomOp         func(env *Env, client int, rec *OpRec) bool
 }
 
-func (e *Env) Seq() int              { return e.Sim.Step() }
-func (e *Env) Now() time.Duration    { return e.Sim.Now() }
-func (e *Env) Fault(k string)        { e.R.Faults[k]++ }
-func (e *Env) Probe(k string)        { e.R.Probes[k]++ }
+func (e *Env) Seq() int               { return e.Sim.Step() }
+func (e *Env) Now() time.Duration     { return e.Sim.Now() }
+func (e *Env) Fault(k string)         { e.R.Faults[k]++ }
+func (e *Env) Probe(k string)         { e.R.Probes[k]++ }
 func (e *Env) ProbeN(k string, n int) { e.R.Probes[k] += n }
-func (e *Env) Oblig(n int)           { e.R.Oblig += n }
+func (e *Env) Oblig(n int)            { e.R.Oblig += n }
 
 func (e *Env) Violate(class, site, format string, args ...any) {
 	msg := fmt.Sprintf(format, args...)
